@@ -64,6 +64,34 @@ for m in sorted(glob.glob(f"{R}/seeded/*/meta.json")):
     ok = d.get("baseline_with_patch_passes") and d.get("demo_fails_with_patch") and d.get("demo_passes_without_patch")
     out.append(f"| {d['name']}{'' if ok else ' (NOT a valid change)'} | {files}: {first} | {', '.join(d.get('caught_by', [])) or 'MISSED'} | {'; '.join(how)} |")
 out.append("")
+
+# ---- 9.8 theorem index (from the Lean sources: name + first sentence of its doc comment)
+def theorem_index(path):
+    if not os.path.exists(path): return []
+    src = open(path).read()
+    res = []
+    for m in re.finditer(r"(?:/--(.*?)-/\s*)?^theorem\s+(\S+)", src, flags=re.S | re.M):
+        doc = (m.group(1) or "").strip()
+        # the doc group may have swallowed earlier text when there was no docstring: keep only a tail docstring
+        if "theorem " in doc or "\nend " in doc or "\ndef " in doc: doc = ""
+        doc = re.sub(r"\s+", " ", doc)
+        first = re.split(r"(?<=[.:;])\s", doc, maxsplit=1)[0] if doc else ""
+        res.append((m.group(2), first[:220].replace("|", "\\|")))
+    return res
+out.append("### 9.8 Theorem index\n")
+out.append("Generated from the Lean sources.  Every name below is audited by `./check` (`#print axioms`; allowed: propext, Classical.choice, Quot.sound).\n")
+for pid in ids:
+    c = props.get(pid, {})
+    mods = [c.get("proof_module", f"OrbProofs.{pid}")] + c.get("extra_proof_modules", [])
+    out.append(f"**{pid} — {titles[pid]}**\n")
+    for mod in mods:
+        ti = theorem_index(f"{R}/lean/" + mod.replace(".", "/") + ".lean")
+        out.append(f"* `{mod}` ({len(ti)} theorems)")
+        for n, d in ti:
+            out.append(f"  * `{n}`" + (f" — {d}" if d else ""))
+    if c.get("functions_tied"):
+        out.append(f"* translation-tied functions: {', '.join(c['functions_tied'])}")
+    out.append("")
 s = open(f"{R}/DESIGN.md").read()
 i = s.find("\n## 9. As built")
 if i >= 0:
